@@ -201,3 +201,61 @@ def writer_cases_v(cases, observed):
             "Definition cases : list wcase := [\n " + ";\n ".join(items) + "\n].\n"
             "Definition MM := Eval vm_compute in mismatches wcase_ok_machine cases.\nPrint MM.\n"
             "Definition MA := Eval vm_compute in mismatches wcase_ok_abs cases.\nPrint MA.\n")
+
+
+# ------------------------------------------------------------------ Python runtime (static_files/_binary.py)
+def make_pyrt(ctx):
+    """Copy the shipped Python runtime files into a scratch package `rt`."""
+    import shutil
+    d = os.path.join(ctx.scratch, "pyrt")
+    if not os.path.isdir(d):
+        os.makedirs(os.path.join(d, "rt"))
+        src = os.path.join(REPO, "tooling/internal/python/static_files")
+        for fn in os.listdir(src):
+            if fn.endswith(".py"):
+                shutil.copy(os.path.join(src, fn), os.path.join(d, "rt", fn))
+        open(os.path.join(d, "rt", "__init__.py"), "w").close()
+    return d
+
+
+def py_op_text(op, rng=None):
+    k, a = op
+    if k == "b":
+        return "b"
+    if k in ("v32", "v64"):
+        return "v"
+    if k == "f":
+        return "f%d" % a
+    if k == "r":
+        return ("r%d" if (rng is None or rng.random() < 0.5) else "R%d") % a
+    raise ValueError(k)
+
+
+def run_py_reader_cases(ctx, pyrt, cases, rng):
+    from vlib import PY_VT
+    lines = ["in %d %s %s" % (bs, hexs(data), " ".join(py_op_text(o, rng) for o in ops)) for bs, data, ops in cases]
+    rc, o, e = sh([PY_VT, os.path.join(VERIF, "harness/py/coded_driver.py"), pyrt],
+                  input="\n".join(lines) + "\n", timeout=900)
+    outs = o.split("\n")
+    if rc != 0 or len(outs) < len(cases):
+        raise RuntimeError("python coded driver failed: " + e[-2000:])
+    return [ln.split() for ln in outs[:len(cases)]]
+
+
+def py_obs_coq(tok):
+    if tok in ("EOF", "ERR:BufferError"):
+        return "Eof"           # both are "an error is reported"; kinds are counted in the evidence
+    if tok.startswith("ERR:"):
+        return "Fault StaleRead"   # any other exception never matches the contract
+    return obs_coq(tok)
+
+
+def py_reader_cases_v(cases, observed):
+    items = []
+    for (bs, data, ops), obs in zip(cases, observed):
+        cops = [("v64", None) if o[0] == "v32" else o for o in ops]
+        items.append("(%d%%nat, %s, %s, %s)" % (bs, coq_bytes(data), "[" + "; ".join(op_coq(o) for o in cops) + "]",
+                                                "[" + "; ".join(py_obs_coq(t) for t in obs) + "]"))
+    return ("From YV Require Import Base.Wire Model.CodedCpp Model.CodedCases.\n"
+            "Definition cases : list rcase := [\n " + ";\n ".join(items) + "\n].\n"
+            "Definition MA := Eval vm_compute in mismatches rcase_ok_abs cases.\nPrint MA.\n")
